@@ -9,6 +9,7 @@ CONSTANTS
   InitStores <- CollStores
   PublishAfterUnlock = TRUE
   CreatedRevalidated = FALSE
+  Equiv = "none"
   SubSer = FALSE
   MayCancel = FALSE
   SnapAtCommit = TRUE
